@@ -48,7 +48,7 @@ func exec(e *lp.Exec) {
 		}
 		// direct oracle C06: whole vs segmented, on the implementation alone
 		if len(segs) > 0 && !limitHit {
-			w := hx.NewSess(s.Client, s.MaxBody, s.Limit, s.Heads...)
+			w := hx.NewSess(s.Client, s.MaxBody, s.Limit)
 			var whole []byte
 			for _, sg := range segs {
 				whole = append(whole, sg...)
@@ -64,7 +64,7 @@ func exec(e *lp.Exec) {
 			// direct oracle C08: every line end the parser accepted is a full CR LF (byte-at-a-time run gives the
 			// exact extent of every completed message)
 			if len(whole) <= 4000 {
-				b := hx.NewSess(s.Client, s.MaxBody, s.Limit, s.Heads...)
+				b := hx.NewSess(s.Client, s.MaxBody, s.Limit)
 				for i := range whole {
 					if r := b.Feed(whole[i : i+1]); r.Errc != 0 {
 						break
@@ -109,11 +109,7 @@ func exec(e *lp.Exec) {
 			cl, _ := strconv.Atoi(f[1])
 			mb, _ := strconv.Atoi(f[2])
 			lim, _ := strconv.Atoi(f[3])
-			var heads []bool
-			if len(f) > 4 {
-				heads = hx.ParseHeads(f[4])
-			}
-			s = hx.NewSess(cl == 1, mb, lim, heads...)
+			s = hx.NewSess(cl == 1, mb, lim)
 			dead, segs, allEvs, allMsgs, finalErr, limitHit, nontrivial = false, nil, nil, nil, 0, false, false
 			key.Reset()
 			fmt.Fprintf(&key, "%d/%v/%v|", cl, mb > 0, lim > 0)
@@ -145,7 +141,7 @@ func exec(e *lp.Exec) {
 				// machine can stall any single call); a hang proper is caught by the executor's timeout
 				slow := true
 				for try := 0; try < 3 && slow; try++ {
-					w := hx.NewSess(s.Client, s.MaxBody, s.Limit, s.Heads...)
+					w := hx.NewSess(s.Client, s.MaxBody, s.Limit)
 					for _, sg := range segs[:len(segs)-1] {
 						w.Feed(sg)
 					}
@@ -235,8 +231,7 @@ func lineEnds(msg []byte, seen hx.Seen) string {
 	}
 	chunked := len(seen.Header["Transfer-Encoding"]) > 0
 	// RFC 7230 3.3.3 rule 1: a 1xx / 204 / 304 response ends at the blank line whatever its framing fields say
-	// … and so does the reply to a HEAD request
-	bodiless := seen.IsResp && (seen.StatusCode/100 == 1 || seen.StatusCode == 204 || seen.StatusCode == 304 || seen.Head)
+	bodiless := seen.IsResp && (seen.StatusCode/100 == 1 || seen.StatusCode == 204 || seen.StatusCode == 304)
 	switch {
 	case bodiless:
 		if len(ms) != he+hl {
